@@ -250,7 +250,8 @@ def check_C09(tier):
     names = idl_asts(res, "names", 1, 3)
     types = idl_asts(res, "types", 3 if thorough else 2, 3)
     shapes = idl_asts(res, "shapes", 1, 3)
-    cases = names + types + (shapes if thorough else shapes[::20])
+    stacked = idl_asts(res, "stacked", 1, 3)
+    cases = names + types + (shapes if thorough else shapes[::20]) + (stacked if thorough else stacked[::2])
     items = []
     for k, c in enumerate(cases):
         c["_name"] = "m%d" % k
